@@ -132,6 +132,9 @@ func judge(o *observation) verdict {
 	addf := func(class, format string, a ...any) {
 		v.fails = append(v.fails, fail{class: class, what: fmt.Sprintf(format, a...)})
 	}
+	if o.arr.stray > 0 {
+		addf("multiple-replies", "%d datagram(s) arrived after the settle window of an earlier query (late extra reply)", o.arr.stray)
+	}
 	if q.Lie() {
 		v.class = "lie"
 		return v
@@ -350,6 +353,8 @@ func feature(o *observation, v *verdict, f fail) string {
 		return "opt"
 	}
 	switch {
+	case v.class == "unhandled" || f.class == "multiple-replies":
+		return v.class
 	case o.tr.cacheHit:
 		return "cache-hit"
 	case o.tr.redirected:
